@@ -317,6 +317,34 @@ def stress_cases(run, seed, mods, ncase, reps, only=None):
             first = False
             if base is None:
                 break
+        # label / work buffers the way a caller may hold them (numpy's default int64, a window of a larger array, a transposed
+        # array, uint32): the wrapper may refuse them; accepted, the caller's array holds the labels on return
+        if base is not None and img.size <= 20000:
+            cImageD11.cimaged11_omp_set_num_threads(3)
+            for variant in ("int64", "window", "transposed", "uint32", "wrk-int32"):
+                wrk = np.zeros(shape, np.uint8)
+                if variant == "int64":
+                    lab = np.full(shape, -9, np.int64)
+                elif variant == "window":
+                    lab = np.full((shape[0] + 2, shape[1] + 3), -9, np.int32)[1:-1, 2:-1]
+                elif variant == "transposed":
+                    lab = np.full(shape[::-1], -9, np.int32).T
+                elif variant == "uint32":
+                    lab = np.full(shape, 77, np.uint32)
+                else:
+                    lab = np.full(shape, -9, np.int32)
+                    wrk = np.zeros(shape, np.int32)
+                try:
+                    n = cImageD11.localmaxlabel(img, lab, wrk)
+                except Exception:
+                    run.count("label_buffer_variants_refused")
+                    continue
+                run.count("label_buffer_variants_accepted")
+                if n != base[0] or not np.array_equal(np.asarray(lab, np.int64), np.asarray(base[1], np.int64)):
+                    run.violation("localmaxlabel:label-buffer:" + variant, "localmaxlabel accepted a %s buffer, returned %d maxima, and the "
+                                  "caller's label array does not hold the labels (%d pixels differ from the ordinary call)"
+                                  % (variant, n, int((np.asarray(lab, np.int64) != base[1]).sum())), dict(desc, variant=variant))
+                    break
         cImageD11.cimaged11_omp_set_num_threads(4)
 
 
